@@ -387,12 +387,16 @@ def pty_session(cicada, sb, idx, entries, keys, env_extra):
     except OSError:
         pass
     rows = []
-    try:
-        con = sqlite3.connect(hist)
-        rows = [x[0] for x in con.execute("select inp from cicada_history order by rowid")]
-        con.close()
-    except sqlite3.Error as e:
-        err = err or ("history database: %s" % e)
+    # a session may name a second history file (`export HISTORY_FILE=$HOME/history2.sqlite`): its rows follow those of the first
+    for hf in (hist, os.path.join(home, "history2.sqlite")):
+        if hf != hist and not os.path.exists(hf):
+            continue
+        try:
+            con = sqlite3.connect(hf)
+            rows += [x[0] for x in con.execute("select inp from cicada_history order by rowid")]
+            con.close()
+        except sqlite3.Error as e:
+            err = err or ("history database: %s" % e)
     recs = []
     if os.path.exists(log):
         lines = open(log).read().split("\n")
